@@ -638,7 +638,13 @@ class Monitor(object):
                 ctx.count('unspecified.card-round-trip-with-sub-centimetre-bar')
             elif sh.heights and not sh.jo_pass:
                 try:
-                    e = self.H.from_matrix(comp.to_matrix(['bib']))
+                    card = comp.to_matrix(['bib'])
+                    card_was = attach._shape(card)
+                    e = self.H.from_matrix(card)
+                    ctx.count('eval.caller-owned-argument-compared')
+                    if attach._shape(card) != card_was:
+                        # the card belongs to whoever handed it over (a spreadsheet import is usually looked at again)
+                        ctx.violation('argument-mutated:from_matrix:the-card', case, repr(card_was)[:300], repr(card)[:300])
                     if observable(e) != observable(comp):
                         ctx.violation('card-round-trip:differs', dict(case, original=repr(observable(comp))[:300]), observable(comp), observable(e))
                     else:
